@@ -294,13 +294,24 @@ func (f *frame) chanRecvOp(ch Value, st *State) (Value, *Term) {
 		val.C[j] = Ite(nonEmpty, q, Ite(closed, zeroOf(c.Sort), other.C[j]))
 	}
 	okFresh := Fresh("recvok", SBool)
+	if !f.closable {
+		// nobody closes this channel (no close site in the module reaches this field):
+		// a receive that had to wait returns a value
+		okFresh = TTrue
+	}
 	ok := Ite(nonEmpty, TTrue, Ite(closed, TFalse, okFresh))
+	if ct, isChan := ch.T.Underlying().(*types.Chan); isChan && ct.Dir() == types.RecvOnly {
+		// receive-only signal channels (quit, Done, timers): a receive is modelled without consuming
+		x.note("receives on receive-only (signal) channels are modelled without consuming a value")
+		return val, ok
+	}
 	st.setRegion(chReg("len", ch.T), Store(st.region(chReg("len", ch.T), sArrII), ref, Ite(nonEmpty, Sub(ln, Num(1)), ln)))
 	st.setRegion(chReg("head", ch.T), Store(st.region(chReg("head", ch.T), sArrII), ref, Ite(nonEmpty, Add(head, Num(1)), head)))
 	return val, ok
 }
 
 func (f *frame) chanRecv(i *ssa.UnOp, ch Value, n *node, st *State) *State {
+	f.closable = f.x.isClosable(i.X)
 	val, ok := f.chanRecvOp(ch, st)
 	f.x.assume(st.pc, Implies(ok, f.chanInvTerm(i.X, val, n, st)), "channel content invariant")
 	if i.CommaOk {
@@ -374,6 +385,7 @@ func (f *frame) selectStmt(i *ssa.Select, n *node, st *State) *State {
 		recvOk := TFalse
 		var recvVals []*Term
 		if s.Dir == types.RecvOnly {
+			f.closable = x.isClosable(s.Chan)
 			v, ok := f.chanRecvOp(cases[k].ch, b)
 			recvOk = ok
 			recvVals = v.C
@@ -458,4 +470,34 @@ func (f *frame) chanInvTerm(chv ssa.Value, v Value, n *node, st *State) *Term {
 		out = append(out, sc.evalBool(ci.C.Expr))
 	}
 	return And(out...)
+}
+
+// isClosable: may another goroutine close this channel? Channels loaded from
+// a struct field for which the module has no close site are never closed.
+func (x *Exec) isClosable(v ssa.Value) bool {
+	fld := chanField(v)
+	if fld == "" {
+		return true
+	}
+	if x.closeSites == nil {
+		x.closeSites = map[string]bool{}
+		for _, fn := range x.P.Funcs {
+			for _, b := range fn.Blocks {
+				for _, in := range b.Instrs {
+					c, ok := in.(ssa.CallInstruction)
+					if !ok {
+						continue
+					}
+					if bi, ok := c.Common().Value.(*ssa.Builtin); ok && bi.Name() == "close" {
+						if f := chanField(c.Common().Args[0]); f != "" {
+							x.closeSites[f] = true
+						} else {
+							x.closeSites["?"] = true
+						}
+					}
+				}
+			}
+		}
+	}
+	return x.closeSites[fld]
 }
